@@ -41,8 +41,14 @@ fn make_sym(name: String, code: Vec<[usize; 4]>) -> Option<Sym> {
         return None;
     }
     let tau: Vec<usize> = labels.iter().map(|&l| id_of[&tau_label(l)]).collect();
-    vcore::reflink::crossing_involution(&d, &tau)?;
-    Some(Sym { name, code, d, labels, tau })
+    let (refl, rot) = vcore::reflink::involution_type(&d, &tau)?;
+    let kind = match (refl, rot) {
+        (true, true) => "both",
+        (true, false) => "reflection",
+        (false, true) => "rotation",
+        (false, false) => "mixed",
+    };
+    Some(Sym { name: format!("{kind}:{name}"), code, d, labels, tau })
 }
 
 fn total_dims<T: RefEuclid>(t: &BTreeMap<i64, Module<T>>) -> BTreeMap<i64, usize> {
@@ -61,7 +67,7 @@ fn check_cone(run: &Run, s: &Sym, mirror: bool, h: u32, t: u32, reduced: bool) {
     let ms;
     let s = if mirror {
         let code: Vec<[usize; 4]> = (0..s.d.n).map(|c| { let x = s.code[c]; if s.d.dir[c] { [x[3], x[0], x[1], x[2]] } else { [x[1], x[2], x[3], x[0]] } }).collect();
-        match make_sym(format!("{}:mirror", s.name), code) {
+        match make_sym(format!("{}:mirror", s.name.splitn(2, ':').nth(1).unwrap_or(&s.name)), code) {
             Some(m) => { ms = m; &ms }
             None => {
                 eprintln!("MACHINERY ERROR: mirrored code of {} is not symmetric for the reference", s.name);
@@ -307,6 +313,7 @@ fn main() {
             return;
         }
         let s = &inputs[i];
+        run.add(&format!("inputs_{}", s.name.split(':').next().unwrap_or("?")), 1);
         if i % 40 == 0 {
             run.sample(json!({"name": s.name, "pd": s.code, "crossings": s.d.n}));
         }
